@@ -92,6 +92,10 @@ type c10Case struct {
 	// Once: the failure is transient (returned by one call; later calls
 	// deliver the rest of the source).
 	Once bool `json:"once,omitempty"`
+	// Any: the source is not known to be well-formed. A syntax error found
+	// before the failure is then a legitimate answer; what remains is: the
+	// call returns, with an error, which is the read error or a parser.Error.
+	Any bool `json:"any,omitempty"`
 }
 
 // checkC10 returns whether the fault was delivered.
@@ -129,6 +133,9 @@ func checkC10(c c10Case) (bool, error) {
 	if r.err == nil {
 		return true, fmt.Errorf("the %s failed after %d units of %q, but ParseCommands returned a nil error (%d commands)", c.Reader, c.K, c.Src, len(r.cmds))
 	}
+	if _, isSyntax := r.err.(parser.Error); c.Any && isSyntax {
+		return true, nil
+	}
 	if !errors.Is(r.err, errSource) {
 		return true, fmt.Errorf("the %s failed after %d units of %q, but ParseCommands returned %q instead of the read error", c.Reader, c.K, c.Src, r.err)
 	}
@@ -160,11 +167,14 @@ func c10Inside(src []rune, k int) bool {
 		strings.Count(pre, "$(") > strings.Count(pre, ")") || strings.Count(pre, "`")%2 == 1 || strings.Contains(pre, "<<") && strings.Contains(pre, "\n")
 }
 
+var c10Damage = []string{"f() a;", "f() a", ")", "(", "$(", "`", "'", "\"", "${", "$((", "((", ";;", "&&", "|", "<<E", "do", "done", "fi", "esac", "}", "{", "then", "in", "!", "\n", ";", "&", " x "}
+
 func TestC10(t *testing.T) {
 	st := newStats("C10")
 	defer st.Write()
 	sh, nsh := shard()
 
+	var anySrc bool
 	enumerate := func(tt fataler, src string, rapidCase bool) {
 		rs := []rune(src)
 		for _, reader := range []string{"scanner", "reader"} {
@@ -176,7 +186,7 @@ func TestC10(t *testing.T) {
 				if reader == "reader" && k < len(src) && !utf8.RuneStart(src[k]) {
 					continue // faults are placed on rune boundaries
 				}
-				c := c10Case{Src: src, K: k, Reader: reader}
+				c := c10Case{Src: src, K: k, Reader: reader, Any: anySrc}
 				jr.begin("C10", "fault", c)
 				delivered, err := checkC10(c)
 				jr.end()
@@ -255,6 +265,25 @@ func TestC10(t *testing.T) {
 			lay = gen.RandomLayout{T: rt, Comments: true, Conts: true, Linebreaks: true}
 		}
 		src := gen.Render(p.Stream, lay).Src
+		if rapid.IntRange(0, 3).Draw(rt, "damage") == 0 {
+			// a damaged program: a syntax error may come first, but the call
+			// still has to return with an error and must not hang or crash
+			rs := []rune(src)
+			for i := rapid.IntRange(1, 3).Draw(rt, "nmut"); i > 0 && len(rs) > 0; i-- {
+				at := rapid.IntRange(0, len(rs)-1).Draw(rt, "at")
+				ins := []rune(rapid.SampledFrom(c10Damage).Draw(rt, "ins"))
+				if rapid.Bool().Draw(rt, "replace") {
+					rs = append(rs[:at:at], append(ins, rs[at+1:]...)...)
+				} else {
+					rs = append(rs[:at:at], append(ins, rs[at:]...)...)
+				}
+			}
+			anySrc = true
+			enumerate(rt, string(rs), true)
+			anySrc = false
+			st.Class("damaged_program")
+			return
+		}
 		if _, _, err := parser.ParseCommands(nil, "c10", src); err != nil {
 			// the quantifier ranges over accepted programs
 			st.Class("program_not_accepted_skipped")
